@@ -1381,6 +1381,22 @@ def O5(ctx, rule="O5"):
             bodies |= m.reach(e["id"])
     n_new = 0
     bad = []
+    tampered = []
+    so_fields = [f["name"] for f in (fb.adts.get("stream_outcome::StreamOutcome") or {"variants": [{"fields": []}]})["variants"][0]["fields"]]
+
+    def outcome_field(b, pl):
+        """name of the StreamOutcome field a place projects into, if any"""
+        cur = (b.locals[pl["l"]] or {}).get("def") if pl["l"] < len(b.locals) else None
+        for el in pl["p"]:
+            if isinstance(el, dict) and "f" in el:
+                if cur == "stream_outcome::StreamOutcome":
+                    return so_fields[el["f"]] if el["f"] < len(so_fields) else "?"
+                ty = el.get("ty") or ""
+                cur = "stream_outcome::StreamOutcome" if ty.lstrip("&mut ").startswith("stream_outcome::StreamOutcome<") else None
+            elif el != "*":
+                cur = None
+        return None
+
     for bid in sorted(bodies):
         b = fb.bodies[bid]
         if bid.startswith("stream_outcome::") or bid.startswith("<stream_outcome::"):
@@ -1403,9 +1419,22 @@ def O5(ctx, rule="O5"):
         for bb, si, s_ in b.stmts():
             if s_["k"] == "assign" and s_["rv"]["k"] == "agg" and s_["rv"].get("def") == "stream_outcome::StreamOutcome":
                 bad.append((b, bb, "struct literal"))
+            # ... and nothing outside the outcome type rewrites what `new` recorded: no store to, and no mutable borrow of, the
+            # state / id-list fields of an outcome (the `value` payload is the caller's and may be replaced)
+            if s_["k"] == "assign":
+                for pl, how in ((s_["pl"], "store to"),) + (((s_["rv"]["pl"], "mutable borrow of"),) if s_["rv"]["k"] == "ref" and s_["rv"].get("bk") != "shared" else ()):
+                    fld = outcome_field(b, pl)
+                    if fld is not None and fld != "value" and not (s_.get("sp") or {}).get("exp"):
+                        tampered.append((b, bb, "%s `.%s`" % (how, fld)))
     for b, bb, why in bad:
         ctx.bad(rule, "outcome-source|%s" % short(b.id), m.where(b, bb),
                 "a streaming path makes a StreamOutcome by %s instead of StreamOutcome::new: its state and id lists do not reflect the run (e.g. NotStarted for an empty graph)" % why)
+    for b, bb, why in tampered:
+        ctx.bad(rule, "outcome-rewritten|%s|%s" % (short(b.id), why.split("`")[1]), m.where(b, bb),
+                "%s of a StreamOutcome outside the outcome type: what StreamOutcome::new recorded from the run (state Finished iff nothing "
+                "remained, the processed ids) is overwritten afterwards" % why)
+    if not tampered:
+        ctx.ok(rule, "outcome-rewritten", "-", "no body on the fold/for_each paths stores to or mutably borrows the state / id-list fields of a StreamOutcome")
     if not bad:
         ctx.ok(rule, "outcome-source", "-", "%d bodies on the fold/for_each paths: every StreamOutcome comes from StreamOutcome::new (%d call sites)" % (len(bodies), n_new))
     # every fold / for_each / try_* entry point reaches a StreamOutcome::new call (directly or through a shared helper)
@@ -2359,6 +2388,25 @@ def G_rules(ctx, rule="G"):
                         ctx.check(okc, rule + "5", "conjunctive|%d" % nz, m.where(bx, bb),
                                   "pairwise comparison is a conjunction over all pairs (%s)" % whyc,
                                   "GraphInfo ==: %s" % whyc)
+    def _field_arm(b, t):
+        """indices K of the `__Field::__field<K>` aggregates built on the arm taken when the string comparison `t` holds"""
+        out = set()
+        sw = t.get("target")
+        if sw is None or b.blocks[sw]["term"]["k"] != "switch":
+            return {"?"}
+        cur, seen = b.blocks[sw]["term"].get("otherwise"), set()
+        while cur is not None and cur not in seen:
+            seen.add(cur)
+            bl = b.blocks[cur]
+            for st in bl["stmts"]:
+                if st["k"] == "assign" and st["rv"]["k"] == "agg" and str(st["rv"].get("def", "")).endswith("__Field"):
+                    out.add(st["rv"].get("vidx"))
+            if out:
+                break
+            tm = bl["term"]
+            cur = tm.get("target") if tm["k"] in ("goto", "false_edge") else None
+        return out or {"?"}
+
     # G3b writer's and reader's tables agree (catches asymmetric #[serde(..)] attributes)
     for ty in ("graph_info::GraphInfo", "edge::Edge", "fn_id_inner::FnIdInner"):
         adt = fb.adts.get(ty)
@@ -2368,6 +2416,7 @@ def G_rules(ctx, rule="G"):
         is_enum = adt["kind"] == "Enum"
         want = [v["name"] for v in adt["variants"]] if is_enum else [f["name"] for f in adt["variants"][0]["fields"]]
         ser_names, de_names = [], []
+        de_map = {}
         ser_kind = set()
         for b in fb.bodies.values():
             if "_serde::Serialize for %s" % ty in b.id and b.id.endswith("::serialize"):
@@ -2389,12 +2438,23 @@ def G_rules(ctx, rule="G"):
                         for a in t["args"]:
                             if a["k"] == "const" and "str" in a["ty"]:
                                 de_names.append(a["val"].strip('"'))
+                                # the arm taken when the name matches builds `__Field::__field<K>`: K must be the position of the
+                                # variant / field of that name (a `#[serde(alias = "..")]` sends a second name to an earlier arm)
+                                de_map.setdefault(a["val"].strip('"'), set()).update(_field_arm(b, t))
         if not is_enum and len(want) == 1 and "serialize_newtype_struct" in ser_kind:
             ctx.ok(rule + "3", "serde-tables|%s" % ty, where, "%s is serialised as a transparent newtype (one field, no names involved)" % ty)
             continue
-        ok = sorted(ser_names) == sorted(want) and sorted(de_names) == sorted(want)
+        # additional names the reader accepts (`alias` spellings that no writer produces) do not affect the round trip
+        ok = sorted(ser_names) == sorted(want) and set(want) <= set(de_names)
+        okm = all(de_map.get(n) == {i} for i, n in enumerate(want))
+        ctx.check(okm or not ok, rule + "3", "serde-read-arms|%s" % ty, where,
+                  "each name the derived Deserialize reads selects the %s declared under that name (%s)" % (
+                      "variant" if is_enum else "field", sorted((n, sorted(v)) for n, v in de_map.items())),
+                  "the derived Deserialize of %s maps names to positions %s, declared order %s: a serialised name is read back as a different %s "
+                  "(a #[serde(alias = ..)] shadowing a declared name)" % (ty, sorted((n, sorted(v)) for n, v in de_map.items()), want,
+                                                                         "variant" if is_enum else "field"))
         ctx.check(ok, rule + "3", "serde-tables|%s" % ty, where,
-                  "the derived Serialize writes exactly the %s %s and the derived Deserialize reads exactly the same names" % (
+                  "the derived Serialize writes exactly the %s %s and the derived Deserialize reads every one of these names" % (
                       "variants" if is_enum else "fields", want),
                   "serde tables disagree for %s: declared %s, written %s, read %s (an asymmetric #[serde(..)] attribute breaks the round trip)" % (
                       ty, want, ser_names, de_names))
